@@ -185,6 +185,8 @@ pub struct Node {
     released_req_term: u64,
     self_grant: Option<u64>, // term of a campaign of this incarnation whose self-vote is not yet released in P
     handed: u64, // last index handed out for apply in this incarnation
+    applied_emitted: u64, // PD: the applied index last reported to the model for this incarnation
+    conf_applied: u64, // index up to which the node's configuration reflects the log (membership change being applied / snapshot restored), beyond `app.index`
 }
 
 pub struct Violation {
@@ -353,7 +355,7 @@ impl Sim {
             let app = d.applied.clone();
             nodes.push(Node {
                 id, rn, store, durable: d, pending: vec![], p_pending: 0, img_selfack: vec![], app, app_hist: VecDeque::new(), incarnation: 0, cfg, member,
-                granted: BTreeSet::new(), granted_term: 0, deferred: None, released_req_term: 0, self_grant: None, handed: 0,
+                granted: BTreeSet::new(), granted_term: 0, deferred: None, released_req_term: 0, self_grant: None, handed: 0, conf_applied: 0, applied_emitted: 0,
             });
         }
         let header = format!(
@@ -370,6 +372,10 @@ impl Sim {
         };
         if sim.p_active {
             sim.ptrace.push(format!("p new {} -> ok", sim.params.seed));
+            // PC: the configuration the group is bootstrapped with is version 0 of the configuration table
+            if let Some(c0) = sim.nodes.iter().find_map(|n| n.rn.as_ref().map(|r| r.raft.prs().conf().to_conf_state())) {
+                sim.ptrace.push(format!("p ev cfginit {} -> ok", fmt_cfg(&c0)));
+            }
         }
         sim
     }
@@ -395,9 +401,25 @@ impl Sim {
     // -------------------------------------------------------------------------------------------
     // P trace
 
+    /// the index up to which node `i`'s configuration reflects its log (PC's `applied`)
+    fn applied_eff(&self, i: usize) -> u64 {
+        self.nodes[i].app.index.max(self.nodes[i].conf_applied)
+    }
+
     fn pev(&mut self, i: usize, ev: String) {
         if !self.p_active {
             return;
+        }
+        // PD: the application's progress (applied index) is reported before the next event of the node
+        let a = self.applied_eff(i);
+        if a > self.nodes[i].applied_emitted && self.nodes[i].rn.is_some() {
+            self.nodes[i].applied_emitted = a;
+            let ap = format!("apply {} {}", self.nodes[i].id, a);
+            if let Some(q) = self.nodes[i].deferred.as_mut() {
+                q.push(ap);
+            } else {
+                self.ptrace.push(format!("p ev {} -> ok", ap));
+            }
         }
         if let Some(q) = self.nodes[i].deferred.as_mut() {
             q.push(ev);
@@ -476,6 +498,12 @@ impl Sim {
         let gen: Vec<Message> = self.nodes[i].rn.as_ref().unwrap().raft.msgs[pre.nmsgs.min(post.nmsgs)..].to_vec();
         let conf = self.nodes[i].rn.as_ref().unwrap().raft.prs().conf().to_conf_state();
         self.monitor_c16_c17(i, pre, &post, input, &gen);
+        // PC: a membership-change entry was applied by this call: record the configuration it yields
+        // (before the events of the call itself, which may already commit under the new configuration)
+        if let Some(k) = self.cur_what.strip_prefix("apply_conf_change idx=") {
+            let k = k.to_string();
+            self.pev(i, format!("applyconf {} {} {}", id, k, fmt_cfg(&conf)));
+        }
         // a deferred (not yet effective) leader that leaves leadership: outside P's fragment
         if self.nodes[i].deferred.is_some() && (post.state != StateRole::Leader || post.term != pre.term) {
             self.p_end("a leader whose self-vote was not yet durable left leadership");
@@ -515,7 +543,8 @@ impl Sim {
                 self.nodes[i].deferred = Some(vec![]);
                 self.stat("deferred_leader");
             }
-            self.pev(i, format!("win {} {} {}", id, fmt_cfg(&conf), fmt_ids(&q)));
+            let applied = self.applied_eff(i);
+            self.pev(i, format!("win {} {} {} {}", id, fmt_cfg(&conf), fmt_ids(&q), applied));
         }
         for m in &gen {
             if m.get_msg_type() == MessageType::MsgRequestVoteResponse && !m.reject {
@@ -623,9 +652,9 @@ impl Sim {
                         if !r.reject && m.index < pre.commit {
                             self.pev(i, format!("ackcommitted {}", id));
                         } else if !r.reject {
-                            self.pev(i, format!("recvapp {} {}", id, Self::app_from_msg(m)));
+                            // PD: the append and the commit advance to min(m.commit, last new index) are one step
+                            self.pev(i, format!("recvappc {} {}", id, Self::app_from_msg(m)));
                             if post.commit > pre.commit {
-                                self.pev(i, format!("commitapp {} {} {}", id, post.commit, Self::app_from_msg(m)));
                                 handled_commit = true;
                             }
                         }
@@ -637,6 +666,7 @@ impl Sim {
                         && self.nodes[i].rn.as_ref().unwrap().raft.raft_log.unstable_snapshot().as_ref().map_or(false, |s| s.get_metadata().index == meta.index);
                     if installed {
                         self.pev(i, format!("installsnap {} {} {} {}", id, m.term, meta.index, meta.term));
+                        self.nodes[i].conf_applied = meta.index;
                         handled_commit = true;
                     } else if post.commit > pre.commit {
                         self.pev(i, format!("commitsnap {} {} {} {}", id, m.term, meta.index, meta.term));
@@ -656,7 +686,8 @@ impl Sim {
                 q.sort();
                 // the commit index is computed under the configuration in force after the call (a leader
                 // may apply a membership change and commit under the new configuration in one call)
-                self.pev(i, format!("commitleader {} {} {} {}", id, post.commit, fmt_cfg(&conf), fmt_ids(&q)));
+                let applied = self.applied_eff(i);
+                self.pev(i, format!("commitleader {} {} {} {} {}", id, post.commit, fmt_cfg(&conf), fmt_ids(&q), applied));
             } else if let Some(m) = input {
                 match m.get_msg_type() {
                     MessageType::MsgHeartbeat => self.pev(i, format!("commithb {} {} {} {}", id, post.commit, m.term, m.commit)),
@@ -687,7 +718,8 @@ impl Sim {
                     self.pev(i, format!("rstart {} {}", id, rid));
                     started.push(rid);
                 }
-                self.pev(i, format!("rresp {} {} {} {}", id, rid, g.index, cfgs));
+                let applied = self.applied_eff(i);
+                self.pev(i, format!("rresp {} {} {} {} {}", id, rid, g.index, cfgs, applied));
             }
             if post.rstates.len() > pre.rstates.len() {
                 for (rid, idx) in post.rstates[pre.rstates.len()..].to_vec() {
@@ -695,7 +727,8 @@ impl Sim {
                         self.pev(i, format!("rstart {} {}", id, rid));
                         started.push(rid);
                     }
-                    self.pev(i, format!("rstate {} {} {} {}", id, rid, idx, cfgs));
+                    let applied = self.applied_eff(i);
+                    self.pev(i, format!("rstate {} {} {} {} {}", id, rid, idx, cfgs, applied));
                 }
             }
         }
@@ -822,6 +855,13 @@ impl Sim {
         if post.state != StateRole::Leader && post.transferee.is_some() {
             self.violate("C17", format!("n{} is {:?} but still records a pending transfer to n{}", id, post.state, post.transferee.unwrap()));
         }
+        // the transfer is abandoned when the target leaves the voters (removed or demoted to learner)
+        if let (StateRole::Leader, Some(t)) = (post.state, post.transferee) {
+            let r = &self.nodes[i].rn.as_ref().unwrap().raft;
+            if !r.prs().conf().voters().contains(t) {
+                self.violate("C17", format!("leader n{} still has a transfer to n{} pending although n{} is not a voter of its configuration any more", id, t, t));
+            }
+        }
         if let Some(t) = what.strip_prefix("transfer_leader ").and_then(|x| x.parse::<u64>().ok()) {
             if input.is_none() && pre.state == StateRole::Leader {
                 let r = &self.nodes[i].rn.as_ref().unwrap().raft;
@@ -937,6 +977,7 @@ impl Sim {
                     c.merge_from_bytes(&e.data).unwrap();
                     c
                 };
+                self.nodes[i].conf_applied = e.index;
                 let r = self.call(i, &format!("apply_conf_change idx={}", e.index), None, |rn| rn.apply_conf_change(&cc));
                 if let Some(Ok(ncs)) = r {
                     self.nodes[i].store.mem.wl().set_conf_state(ncs.clone());
@@ -1308,11 +1349,14 @@ impl Sim {
         n.app = d.applied.clone();
         n.app_hist.clear();
         n.handed = d.applied.index;
+        n.conf_applied = 0;
+        // a restart reports its applied index with the `restart` event; a freshly bootstrapped node with the next event
+        n.applied_emitted = if is_restart { d.applied.index } else { 0 };
         n.incarnation += 1;
         n.granted.clear();
         n.released_req_term = 0;
         if is_restart {
-            self.pev_now(format!("restart {}", id));
+            self.pev_now(format!("restart {} {}", id, d.applied.index));
         }
         let conf = self.nodes[i].rn.as_ref().unwrap().raft.prs().conf().to_conf_state();
         self.last_conf.insert(id, conf);
@@ -2068,9 +2112,31 @@ impl Sim {
             cc = ConfChangeV2::default();
         }
         let d = format!("propose_conf_change {:?}", cc.changes.iter().map(|c| (c.get_change_type(), c.node_id)).collect::<Vec<_>>());
-        self.call(i, &d, None, |rn| {
-            let _ = rn.propose_conf_change(vec![], cc);
-        });
+        if self.rng.chance(12) {
+            // one MsgPropose carrying TWO membership changes (a forwarded batch): only the first may go in
+            let t2 = 1 + self.rng.below(n);
+            let mut cc2 = ConfChangeV2::default();
+            cc2.mut_changes().push(raft_proto::new_conf_change_single(t2, if self.rng.chance(50) { ConfChangeType::RemoveNode } else { ConfChangeType::AddNode }));
+            let mut m = Message::default();
+            m.set_msg_type(MessageType::MsgPropose);
+            m.from = self.nodes[i].id;
+            let mut ents = vec![];
+            for c in [&cc, &cc2] {
+                let mut e = Entry::default();
+                e.set_entry_type(EntryType::EntryConfChangeV2);
+                e.data = protobuf::Message::write_to_bytes(c).unwrap().into();
+                ents.push(e);
+            }
+            m.set_entries(ents.into());
+            let d2 = format!("step MsgPropose batch [{} + another membership change]", d);
+            self.call(i, &d2, None, |rn| {
+                let _ = rn.step(m);
+            });
+        } else {
+            self.call(i, &d, None, |rn| {
+                let _ = rn.propose_conf_change(vec![], cc);
+            });
+        }
         // a node that is being added is bootstrapped from the durable application state of a running
         // member (its initial configuration is not in the log, so it cannot start from an empty log)
         let t = target as usize - 1;
